@@ -3,8 +3,8 @@ CONSTANTS
   MaxDepth = 2
   MaxNodes = 1
   MaxInj = 3
-  HSets <- HSetsAll
-  CMs = {"no", "sup", "raise"}
+  HSets <- HSetsSmall
+  CMs = {"no", "sup"}
   Kinds = {"try", "tf", "with", "loop", "seq"}
   Leaves = {"raise", "from", "reraise", "ret", "brk", "cnt", "quiet"}
   RaiseCls = {"A", "B"}
